@@ -656,6 +656,10 @@ func evalModItem(vc *VC, env *Env, m Clause) []modItem {
 				}
 			}
 			if ty := tryType(e); ty != nil {
+				if el := msElem(ty); el != nil {
+					// any(mapset.Set[T]): the content of every modelled set of that element type
+					return []modItem{{comp: vc.compMapDom(msMap(el)), src: m.Src}}
+				}
 				if st, ok := ty.Underlying().(*types.Struct); ok {
 					var out []modItem
 					for i := 0; i < st.NumFields(); i++ {
